@@ -170,5 +170,9 @@ func yyLexErrorf(l yyLexer, format string, a ...any) int {
 // util
 
 func trimString(s string) string {
+	// Strip exactly one quote on each side, a literal can end with an escaped quote.
+	if len(s) >= 2 && s[0] == '"' && s[len(s)-1] == '"' {
+		return s[1 : len(s)-1]
+	}
 	return strings.Trim(s, "\"")
 }
